@@ -8,3 +8,7 @@ PROPS = {
                   "Relaxed atomics in IceConn are modelled as one sequential step per receive() call (single receive loop per connection)"],
  },
 }
+
+import os as _os, json as _json, glob as _glob
+for _f in sorted(_glob.glob(_os.path.join(_os.path.dirname(_os.path.abspath(__file__)), "propcfg.d", "*.json"))):
+    PROPS.update(_json.load(open(_f)))
